@@ -13,7 +13,9 @@ pub mod c05;
 pub mod c06;
 pub mod c07;
 pub mod c08;
+pub mod c09;
 pub mod c10;
+pub mod c12;
 pub mod c13;
 pub mod common;
 
@@ -76,7 +78,9 @@ pub fn check(prop: &str, r: &RunResult) -> Report {
 		"C02" => c02::check(r, &mut rep),
 		"C04" => c04::check(r, &mut rep),
 		"C05" => c05::check(r, &mut rep),
+		"C09" => c09::check(r, &mut rep),
 		"C10" => c10::check(r, &mut rep),
+		"C12" => c12::check(r, &mut rep),
 		"C13" => c13::check(r, &mut rep),
 		"C03" => c03::check(r, &mut rep),
 		"C06" => c06::check(r, &mut rep),
